@@ -185,6 +185,37 @@ func init() {
 				stat("C18", "generated-checked")
 			}
 		}
+		// two generated keys are two keys, also when they carry the same key id (key lookup goes by id, so only
+		// then does the key material itself decide): what one signs, the other's public half rejects
+		{
+			stp := &signature.CommandStepWithInvariants{CommandStep: pipeline.CommandStep{Command: "echo same kid"}, RepositoryURL: "repo"}
+			for _, a := range []jwa.SignatureAlgorithm{jwa.EdDSA, jwa.ES512, jwa.PS512} {
+				privA, pubA, e1 := jwkutil.NewKeyPair("same-id", a)
+				privB, pubB, e2 := jwkutil.NewKeyPair("same-id", a)
+				c := sx.L(sx.A("same-kid-pairs"), sx.A(a.String()))
+				if e1 != nil || e2 != nil {
+					oracleFail("C18", "generate", c, fmt.Sprint(e1, e2))
+					continue
+				}
+				ka, _ := privA.Key(0)
+				kb, _ := privB.Key(0)
+				sa, ea := signature.Sign(context.Background(), ka, stp)
+				sb2, eb := signature.Sign(context.Background(), kb, stp)
+				if ea != nil || eb != nil {
+					oracleFail("C18", "sign", c, fmt.Sprint(ea, eb))
+					continue
+				}
+				okAA := signature.Verify(context.Background(), sa, pubA, stp) == nil
+				okBB := signature.Verify(context.Background(), sb2, pubB, stp) == nil
+				okAB := signature.Verify(context.Background(), sa, pubB, stp) == nil
+				okBA := signature.Verify(context.Background(), sb2, pubA, stp) == nil
+				if !okAA || !okBB || okAB || okBA {
+					oracleFail("C18", "cross-verify", c, fmt.Sprintf("two %s keys generated with the same key id: own halves verify %v %v (want true true), each other's %v %v (want false false)", a, okAA, okBB, okAB, okBA))
+					continue
+				}
+				stat("C18", "same-kid-pairs")
+			}
+		}
 		// the library's own generator also makes symmetric keys (for tests): every one of them is rejected by
 		// validation; and for any other algorithm it either refuses or gives keys that validation rejects
 		for _, id := range []string{"", "sym", "a b"} {
